@@ -142,6 +142,13 @@ pub trait Property: Sync {
     fn watchdog_s(&self) -> u64 {
         120
     }
+    /// Whether "the call returns" is part of the property: then a worker
+    /// whose threads are all blocked without consuming CPU (see
+    /// `parent::DEADLOCK_S`) is a failure of class `deadlock`; otherwise it is
+    /// inconclusive like the watchdog.
+    fn deadlock_is_violation(&self) -> bool {
+        false
+    }
     /// Extra assumptions to record in the evidence.
     fn assumptions(&self) -> Vec<&'static str> {
         vec![]
